@@ -307,6 +307,47 @@ def run(chk):
                                            "puts(read(open(%s)));" % lit(good), "let h = open(%s, \"a\"); write(h, encode_utf8(\"tail\")); flush(h); puts(len(read(open(%s))));" % (lit(good), lit(good))],
                         [good]))
         core.isolation_after_errors(chk, "write", iso)
+        # ---- a file written by a filter program holds everything written to it when the program has ended, also when the
+        # program ends because nobody reads its output any more
+        from . import pkt as _pkt
+        cap = os.path.join(work, "many.pcap")
+        with open(cap, "wb") as f:
+            f.write(_pkt.pcap_file([(k, k, bytes((k + j) & 0xFF for j in range(60 + k % 7))) for k in range(300)]))
+        journal = os.path.join(work, "journal.txt")
+        fprog = os.path.join(work, "fj.p2")
+        with open(fprog, "w") as f:
+            f.write("let j = open(%s, \"w\"); let n = 0;\n@ true { n = n + write(j, \"p\"); }\n@ true\n@ end { write(j, \"E\"); eprintln(\"END\"); }\n" % lit(journal))
+        for k, mode in enumerate(("reader-gone", "reader-gone", "full-device", "normal")):
+            if os.path.exists(journal):
+                os.unlink(journal)
+            with open(cap, "rb") as fi:
+                if mode == "reader-gone":
+                    rfd, wfd = os.pipe()
+                    os.close(rfd)
+                    with os.fdopen(wfd, "wb") as fo:
+                        rr = core.run_binary([fprog], stdin_file=fi, stdout_file=fo, release=(k % 2 == 1), timeout=30)
+                elif mode == "full-device":
+                    with open("/dev/full", "wb") as fo:
+                        rr = core.run_binary([fprog], stdin_file=fi, stdout_file=fo, timeout=30)
+                else:
+                    rr = core.run_binary([fprog], stdin_file=fi, timeout=30)
+            if rr["timeout"]:
+                chk.inconc("timeout")
+                continue
+            chk.observed(("filter-journal", mode))
+            if core.crashed(rr):
+                chk.violation("journal|crash|%s" % mode, "the filter program crashes (%s)" % mode, {"stderr": rr["err"][-200:].decode("utf-8", "replace")})
+                continue
+            try:
+                final = open(journal, "rb").read()
+            except OSError:
+                final = None
+            # every 'p' the program wrote before it ended must be in the file; the stream loop may stop early when the output fails
+            ended = b"END" in rr["err"]
+            ok = final is not None and set(final) <= set(b"pE") and (final.endswith(b"E") == ended) and (len(final) >= 1 if mode != "normal" else final == b"p" * 300 + b"E")
+            if not ok:
+                chk.violation("journal|%s" % mode, "filter program with output %s: the journal file holds %r... (%s bytes), end filter ran: %s" % (
+                    mode, (final or b"")[:20], None if final is None else len(final), ended), {"mode": mode})
         # ---- stdin through a pipe with write schedules (real binary)
         n_s = 60 if quick else 1500
         path = os.path.join(work, "s.p2")
